@@ -30,3 +30,18 @@ package ecdsa
 //@   ensures result != nil && fresh(result) && result.R == sig.R && result.S != nil && fresh(result.S)
 //@   ensures ptval(sig.R) == old(ptval(sig.R))
 //@   loop 1: invariant s != nil && fresh(s)
+
+// A presignature taken from storage is validated before use (C20, C15): no field may be missing.
+//@ func (*PreSignature).Validate
+//@   nopanic[C20,C05]
+//@   requires sig != nil
+//@   modifies nothing
+//@   allocates
+//@   ensures[C20] result == nil ==> (sig.R != nil && sig.RBar != nil && sig.S != nil && sig.KShare != nil && sig.ChiShare != nil)
+
+//@ func (*PreSignature).SignerIDs
+//@   nopanic[C20,C05]
+//@   requires sig != nil && sig.RBar != nil
+//@   modifies nothing
+//@   allocates
+//@   loop 1: invariant fresh(ids)
